@@ -5,7 +5,7 @@ Theorems about the model of lib/grandpa's tally code (Gossamer/Model/C21.lean). 
 function is stated for ALL iteration orders of the Go maps (`o : Ord`, `o.Valid`: every order is a permutation).
 
 Sections: thresholds and totals; the pre-voted block in closed form and order independence; the precommit target;
-the vote filter and the reachable states; finalisation.
+the vote filter and the reachable states; finalisation; histories with authority-set changes (`initiateRound`).
 -/
 import Gossamer.Lib.C21Unique
 import Gossamer.Lib.C21Filter
@@ -70,7 +70,7 @@ theorem C21_order_independent {c : Cfg} (hw : c.t.WF) {s : St} (hg : GoodVotes c
   unfold determinePreCommit
   rw [key (ho.sub 0) (ho'.sub 0)]
 
-def tieCfg : Cfg := ⟨4, 9, 0, ⟨[0, 0, 0]⟩, 0, .none, 1, 0, false⟩
+def tieCfg : Cfg := ⟨[0, 1, 2, 3], 9, 0, ⟨[0, 0, 0]⟩, 0, .none, 1, 0, false⟩
 def tieSt : St := { pv := [(0, ⟨1, 1⟩), (1, ⟨2, 1⟩)], pve := [(2, 2), (3, 2)] }
 
 /-- a concrete tie (two equivocators of four and one vote on each of two siblings, both with 3 of 4): the answer
@@ -175,7 +175,7 @@ theorem C21_precommit_target_partial {c : Cfg} (hw : c.t.WF) {s : St} (hg : Good
   rw [key (ho.sub 0)]
   rfl
 
-def shadowCfg : Cfg := ⟨4, 9, 0, ⟨[0, 0, 1, 2, 2]⟩, 0, .none, 1, 0, false⟩
+def shadowCfg : Cfg := ⟨[0, 1, 2, 3], 9, 0, ⟨[0, 0, 1, 2, 2]⟩, 0, .none, 1, 0, false⟩
 def shadowSt : St := { pv := [(0, ⟨1, 1⟩), (1, ⟨3, 3⟩), (2, ⟨3, 3⟩), (3, ⟨4, 3⟩)] }
 
 /-- the full statement fails: block 1 was voted for directly (4 of 4 in total), so the common ancestor 2 of the
@@ -210,7 +210,7 @@ theorem C21_cap_is_ancestor {c : Cfg} (hw : c.t.WF) {G h : Nat} (hG : G < c.t.si
 /-- the defects of a vote message the property names (plus wrong set, wrong round and our own key);
 the wrong block number counts only for the corrected check (`c.strict`) -/
 def BadMsg (c : Cfg) (m : Msg) : Prop :=
-  m.sigOK = false ∨ c.n ≤ m.key ∨ c.t.size ≤ m.blk ∨ c.fin ∉ c.t.chain m.blk ∨ m.mset ≠ c.set ∨
+  m.sigOK = false ∨ m.key ∉ c.voters ∨ c.t.size ≤ m.blk ∨ c.fin ∉ c.t.chain m.blk ∨ m.mset ≠ c.set ∨
     m.mround ≠ c.round ∨ m.key = c.me ∨ (c.strict = true ∧ m.num ≠ c.number m.blk)
 
 /-- **The filter** (partial: the wrong block number is rejected only by the corrected check, known finding
@@ -226,7 +226,7 @@ theorem C21_filter_partial (c : Cfg) (s : St) (m : Msg) (h : BadMsg c m) :
     obtain ⟨hk, hf, hn⟩ := validateVote_none hv
     rcases h with h | h | h | h | h | h | h | ⟨hs, h⟩
     · rw [h1] at h; cases h
-    · omega
+    · exact h h4
     · simp only at hk; omega
     · exact h hf
     · exact h h2
@@ -237,7 +237,7 @@ theorem C21_filter_partial (c : Cfg) (s : St) (m : Msg) (h : BadMsg c m) :
   simp only [St.tallies, Prod.mk.injEq] at this
   exact ⟨this.1, this.2.1, this.2.2.1, this.2.2.2.1, this.2.2.2.2⟩
 
-def wnCfg : Cfg := ⟨4, 9, 0, ⟨[0, 0, 1]⟩, 0, .none, 1, 0, false⟩
+def wnCfg : Cfg := ⟨[0, 1, 2, 3], 9, 0, ⟨[0, 0, 1]⟩, 0, .none, 1, 0, false⟩
 def wnMsg (key num : Nat) : Msg := ⟨0, key, 2, num, true, 1, 0⟩
 
 /-- the full statement fails for the wrong block number: a correctly signed prevote of an authority for block 2
@@ -435,7 +435,7 @@ theorem C21_finalise_sound {c : Cfg} (hw : c.t.WF) {s : St} (hgv : GoodVotes c s
 /-- **Accounting of all reachable states**: when the Service is one of the `n` authorities, the authorities with a
 stored vote of a stage and the equivocators of that stage are distinct authorities, hence at most `n` together
 (the hypothesis `hacc` of the GHOST theorems). -/
-theorem C21_reachable_accounted (c : Cfg) (hme : c.me < c.n) (ops : List Op) :
+theorem C21_reachable_accounted (c : Cfg) (hme : c.me ∈ c.voters) (ops : List Op) :
     (run c ops).pv.length + (run c ops).pve.length ≤ c.n ∧
     (run c ops).pc.length + (run c ops).pce.length ≤ c.n :=
   ⟨(run_accounted c hme ops).1.length_le, (run_accounted c hme ops).2.length_le⟩
@@ -445,7 +445,7 @@ vote messages and own votes (messages carrying the numbers of their blocks), for
 third of the authorities equivocated in their prevotes and `G` is the GRANDPA-GHOST of the stored prevotes, then –
 unless a directly voted block with a supermajority hides `G` – the Service precommits to `G` capped at the pending
 authority change. -/
-theorem C21_precommit_target_reachable_partial (c : Cfg) (hw : c.t.WF) (hme : c.me < c.n) (ops : List Op)
+theorem C21_precommit_target_reachable_partial (c : Cfg) (hw : c.t.WF) (hme : c.me ∈ c.voters) (ops : List Op)
     (hop : ∀ op ∈ ops, OpOK c op) (hnum : c.strict = true ∨ ∀ op ∈ ops, NumOK c op) {o : Ord} (ho : o.Valid)
     (he : 3 * (run c ops).pve.length ≤ c.n) {G : Nat} (hgh : IsGhost c (run c ops) G)
     (hns : (∃ kv ∈ (run c ops).pv, kv.2.blk = G) ∨
@@ -457,7 +457,7 @@ theorem C21_precommit_target_reachable_partial (c : Cfg) (hw : c.t.WF) (hme : c.
 /-- the hypotheses of the theorem above are satisfiable: four authorities, three prevote for block 2 and one for its
 sibling; the GHOST is block 2 and the precommit goes to it -/
 example :
-    let c : Cfg := ⟨4, 0, 0, ⟨[0, 0, 1, 1]⟩, 0, .none, 1, 0, false⟩
+    let c : Cfg := ⟨[0, 1, 2, 3], 0, 0, ⟨[0, 0, 1, 1]⟩, 0, .none, 1, 0, false⟩
     let ops : List Op := [.own 0 2, .msg ⟨0, 1, 2, 2, true, 1, 0⟩, .msg ⟨0, 2, 2, 2, true, 1, 0⟩,
       .msg ⟨0, 3, 3, 2, true, 1, 0⟩]
     (run c ops).pv = [(0, ⟨2, 2⟩), (1, ⟨2, 2⟩), (2, ⟨2, 2⟩), (3, ⟨3, 2⟩)] ∧ pvTotal c (run c ops) 2 = 3 ∧
@@ -521,5 +521,224 @@ theorem C21_finalise_closed_form {c : Cfg} (hw : c.t.WF) {s : St} (hgv : GoodVot
         rw [hb1] at hcount
         simp only [Cfg.voteOf] at hcount
         omega
+
+/-! ### histories with authority-set changes -/
+
+/-- **A set change resets every per-set tally and installs the new voters**: after `initiateRound` the prevotes,
+precommits and both equivocation maps are empty, the tree is untouched, and the voter list is the one the node's
+state returned for the new set id (unchanged when the set id did not change). -/
+theorem C21_set_change_resets (c : Cfg) (s : St) (i : Init) :
+    (initiateRound c s i).2.pv = [] ∧ (initiateRound c s i).2.pc = [] ∧
+    (initiateRound c s i).2.pve = [] ∧ (initiateRound c s i).2.pce = [] ∧
+    (initiateRound c s i).1.fin = i.head ∧
+    (i.cur ≠ c.set → (initiateRound c s i).1.voters = i.auths) ∧
+    (i.cur = c.set → (initiateRound c s i).1.voters = c.voters) ∧
+    (initiateRound c s i).1.t = c.t ∧ (initiateRound c s i).1.base = c.base ∧
+    (initiateRound c s i).1.me = c.me ∧ (initiateRound c s i).1.strict = c.strict := by
+  unfold initiateRound updateAuthorities
+  by_cases h : i.cur = c.set <;> simp [h] <;> (repeat' split) <;> simp
+
+/-- static parts of the configuration along a history -/
+theorem runAll_static (c0 : Cfg) (evs : List Ev) :
+    (runAll c0 evs).1.t = c0.t ∧ (runAll c0 evs).1.base = c0.base ∧ (runAll c0 evs).1.me = c0.me ∧
+    (runAll c0 evs).1.strict = c0.strict := by
+  have gen : ∀ (evs : List Ev) (cs : Cfg × St), (evs.foldl stepAll cs).1.t = cs.1.t ∧
+      (evs.foldl stepAll cs).1.base = cs.1.base ∧ (evs.foldl stepAll cs).1.me = cs.1.me ∧
+      (evs.foldl stepAll cs).1.strict = cs.1.strict := by
+    intro evs
+    induction evs with
+    | nil => intro cs; exact ⟨rfl, rfl, rfl, rfl⟩
+    | cons ev rest ih =>
+      intro cs
+      rw [List.foldl_cons]
+      have h1 := ih (stepAll cs ev)
+      have h2 : (stepAll cs ev).1.t = cs.1.t ∧ (stepAll cs ev).1.base = cs.1.base ∧
+          (stepAll cs ev).1.me = cs.1.me ∧ (stepAll cs ev).1.strict = cs.1.strict := by
+        cases ev with
+        | msg m => exact ⟨rfl, rfl, rfl, rfl⟩
+        | own stage b =>
+          simp only [stepAll]
+          split <;> exact ⟨rfl, rfl, rfl, rfl⟩
+        | init i =>
+          have := C21_set_change_resets cs.1 cs.2 i
+          exact ⟨this.2.2.2.2.2.2.2.1, this.2.2.2.2.2.2.2.2.1, this.2.2.2.2.2.2.2.2.2.1,
+            this.2.2.2.2.2.2.2.2.2.2⟩
+      exact ⟨h1.1.trans h2.1, h1.2.1.trans h2.2.1, h1.2.2.1.trans h2.2.2.1, h1.2.2.2.trans h2.2.2.2⟩
+  exact gen evs (c0, {})
+
+/-- the message carries the number of its block -/
+def EvNumOK (c : Cfg) : Ev → Prop
+  | .msg m => m.num = c.number m.blk
+  | _ => True
+
+theorem number_congr {c c' : Cfg} (ht : c'.t = c.t) (hb : c'.base = c.base) (b : Nat) :
+    c'.number b = c.number b := by
+  simp [Cfg.number, ht, hb]
+
+/-- **The filter over histories with authority-set changes.**  After ANY history of vote messages, own votes and
+`initiateRound` calls (set changes with arbitrary new voter lists, re-orderings included), a message whose signer is
+not an authority of the set the Service is in NOW, or that names another set id than the current one (stale or
+future), or that is badly signed / for an unknown or off-chain block / from our own key, is answered with an error
+and changes neither the four tallies nor the configuration. -/
+theorem C21_filter_history (c0 : Cfg) (evs : List Ev) (m : Msg)
+    (h : BadMsg (runAll c0 evs).1 m) :
+    (validateVoteMessage (runAll c0 evs).1 (runAll c0 evs).2 m).1 ≠ none ∧
+    (stepAll (runAll c0 evs) (.msg m)).1 = (runAll c0 evs).1 ∧
+    (stepAll (runAll c0 evs) (.msg m)).2.pv = (runAll c0 evs).2.pv ∧
+    (stepAll (runAll c0 evs) (.msg m)).2.pc = (runAll c0 evs).2.pc ∧
+    (stepAll (runAll c0 evs) (.msg m)).2.pve = (runAll c0 evs).2.pve ∧
+    (stepAll (runAll c0 evs) (.msg m)).2.pce = (runAll c0 evs).2.pce := by
+  have := C21_filter_partial (runAll c0 evs).1 (runAll c0 evs).2 m h
+  exact ⟨this.1, rfl, this.2.1, this.2.2.1, this.2.2.2.1, this.2.2.2.2⟩
+
+/-- **Invariant of all reachable states, set changes included**: every stored vote names a block of the tree on the
+chain of the CURRENT finalised head with that block's number. -/
+theorem C21_history_good (c0 : Cfg) (evs : List Ev)
+    (hnum : c0.strict = true ∨ ∀ ev ∈ evs, EvNumOK c0 ev) :
+    GoodVotes (runAll c0 evs).1 (runAll c0 evs).2.pv ∧ GoodVotes (runAll c0 evs).1 (runAll c0 evs).2.pc := by
+  have gen : ∀ (evs : List Ev) (cs : Cfg × St), cs.1.t = c0.t → cs.1.base = c0.base →
+      cs.1.strict = c0.strict → (c0.strict = true ∨ ∀ ev ∈ evs, EvNumOK c0 ev) →
+      GoodVotes cs.1 cs.2.pv ∧ GoodVotes cs.1 cs.2.pc →
+      GoodVotes (evs.foldl stepAll cs).1 (evs.foldl stepAll cs).2.pv ∧
+      GoodVotes (evs.foldl stepAll cs).1 (evs.foldl stepAll cs).2.pc := by
+    intro evs
+    induction evs with
+    | nil => intro cs _ _ _ _ h; exact h
+    | cons ev rest ih =>
+      intro cs ht hb hs hnum h
+      rw [List.foldl_cons]
+      have hrest : c0.strict = true ∨ ∀ ev ∈ rest, EvNumOK c0 ev := by
+        rcases hnum with h' | h'
+        · exact Or.inl h'
+        · exact Or.inr (fun e he => h' e (List.mem_cons_of_mem _ he))
+      cases ev with
+      | msg m =>
+        apply ih (stepAll cs (.msg m)) ht hb hs hrest
+        have hn : cs.1.strict = true ∨ NumOK cs.1 (.msg m) := by
+          rcases hnum with h' | h'
+          · exact Or.inl (hs.trans h')
+          · right
+            have := h' _ List.mem_cons_self
+            simp only [EvNumOK] at this
+            simp only [NumOK, number_congr ht hb]
+            exact this
+        exact step_good (op := .msg m) trivial hn h
+      | own stage b =>
+        simp only [stepAll]
+        split
+        · rename_i hc
+          apply ih (cs.1, ownVote cs.1 cs.2 stage b) ht hb hs hrest
+          exact step_good (op := .own stage b) ⟨hc.1, Tree.le_iff.1 hc.2⟩ (Or.inr trivial) h
+        · exact ih _ ht hb hs hrest h
+      | init i =>
+        have hr := C21_set_change_resets cs.1 cs.2 i
+        apply ih (stepAll cs (.init i)) (hr.2.2.2.2.2.2.2.1.trans ht) (hr.2.2.2.2.2.2.2.2.1.trans hb)
+          (hr.2.2.2.2.2.2.2.2.2.2.trans hs) hrest
+        show GoodVotes (initiateRound cs.1 cs.2 i).1 (initiateRound cs.1 cs.2 i).2.pv ∧
+          GoodVotes (initiateRound cs.1 cs.2 i).1 (initiateRound cs.1 cs.2 i).2.pc
+        rw [hr.1, hr.2.1]
+        exact ⟨fun kv hkv => (by cases hkv), fun kv hkv => (by cases hkv)⟩
+  exact gen evs (c0, {}) rfl rfl rfl hnum ⟨fun kv hkv => (by cases hkv), fun kv hkv => (by cases hkv)⟩
+
+/-- the Service stays an authority through every set change of the history -/
+def EvMeOK (me : Nat) : Ev → Prop
+  | .init i => me ∈ i.auths
+  | _ => True
+
+/-- **Accounting over histories with set changes**: the authorities with a stored vote of a stage and the
+equivocators of that stage are distinct authorities of the CURRENT set. -/
+theorem C21_history_accounted (c0 : Cfg) (hme : c0.me ∈ c0.voters) (evs : List Ev)
+    (hev : ∀ ev ∈ evs, EvMeOK c0.me ev) :
+    (runAll c0 evs).2.pv.length + (runAll c0 evs).2.pve.length ≤ (runAll c0 evs).1.n ∧
+    (runAll c0 evs).2.pc.length + (runAll c0 evs).2.pce.length ≤ (runAll c0 evs).1.n := by
+  have h0 : ∀ vs me, AccInv vs me ([] : List (Nat × Vote)) ([] : List (Nat × Nat)) := fun vs me =>
+    ⟨by simp [keys], by simp [keys], fun k hk => (by simp [keys] at hk), fun k hk => (by simp [keys] at hk),
+      fun k hk => (by simp [keys] at hk)⟩
+  have gen : ∀ (evs : List Ev) (cs : Cfg × St), cs.1.me = c0.me → cs.1.me ∈ cs.1.voters →
+      (∀ ev ∈ evs, EvMeOK c0.me ev) →
+      AccInv cs.1.voters cs.1.me cs.2.pv cs.2.pve ∧ AccInv cs.1.voters cs.1.me cs.2.pc cs.2.pce →
+      AccInv (evs.foldl stepAll cs).1.voters (evs.foldl stepAll cs).1.me (evs.foldl stepAll cs).2.pv
+        (evs.foldl stepAll cs).2.pve ∧
+      AccInv (evs.foldl stepAll cs).1.voters (evs.foldl stepAll cs).1.me (evs.foldl stepAll cs).2.pc
+        (evs.foldl stepAll cs).2.pce := by
+    intro evs
+    induction evs with
+    | nil => intro cs _ _ _ h; exact h
+    | cons ev rest ih =>
+      intro cs hm hmv hev h
+      rw [List.foldl_cons]
+      have hrest := fun e he => hev e (List.mem_cons_of_mem _ he)
+      cases ev with
+      | msg m =>
+        have hmv' := vvm_moves (c := cs.1) cs.2 m
+        exact ih (stepAll cs (.msg m)) hm hmv hrest ⟨h.1.move hmv'.1, h.2.move hmv'.2⟩
+      | own stage b =>
+        simp only [stepAll]
+        split
+        · apply ih (cs.1, ownVote cs.1 cs.2 stage b) hm hmv hrest
+          show AccInv cs.1.voters cs.1.me (ownVote cs.1 cs.2 stage b).pv (ownVote cs.1 cs.2 stage b).pve ∧
+            AccInv cs.1.voters cs.1.me (ownVote cs.1 cs.2 stage b).pc (ownVote cs.1 cs.2 stage b).pce
+          unfold ownVote
+          by_cases hst : stage = 0
+          · rw [if_pos hst]
+            exact ⟨h.1.store _ hmv (fun hk => (h.1.be _ hk).2 rfl), h.2⟩
+          · rw [if_neg hst]
+            exact ⟨h.1, h.2.store _ hmv (fun hk => (h.2.be _ hk).2 rfl)⟩
+        · exact ih _ hm hmv hrest h
+      | init i =>
+        have hr := C21_set_change_resets cs.1 cs.2 i
+        have hi : c0.me ∈ i.auths := hev _ List.mem_cons_self
+        have hme' : (initiateRound cs.1 cs.2 i).1.me = c0.me := hr.2.2.2.2.2.2.2.2.2.1.trans hm
+        apply ih (stepAll cs (.init i)) hme' _ hrest
+        · show AccInv (initiateRound cs.1 cs.2 i).1.voters (initiateRound cs.1 cs.2 i).1.me
+            (initiateRound cs.1 cs.2 i).2.pv (initiateRound cs.1 cs.2 i).2.pve ∧
+            AccInv (initiateRound cs.1 cs.2 i).1.voters (initiateRound cs.1 cs.2 i).1.me
+            (initiateRound cs.1 cs.2 i).2.pc (initiateRound cs.1 cs.2 i).2.pce
+          rw [hr.1, hr.2.1, hr.2.2.1, hr.2.2.2.1]
+          exact ⟨h0 _ _, h0 _ _⟩
+        · show (initiateRound cs.1 cs.2 i).1.me ∈ (initiateRound cs.1 cs.2 i).1.voters
+          rw [hme']
+          by_cases hc : i.cur = cs.1.set
+          · rw [hr.2.2.2.2.2.2.1 hc, ← hm]; exact hmv
+          · rw [hr.2.2.2.2.2.1 hc]; exact hi
+  have := gen evs (c0, {}) rfl hme hev ⟨h0 _ _, h0 _ _⟩
+  exact ⟨this.1.length_le, this.2.length_le⟩
+
+/-- **The precommit target over all histories with set changes** (partial, as `C21_precommit_target_partial`) -/
+theorem C21_precommit_target_history_partial (c0 : Cfg) (hw : c0.t.WF) (hme : c0.me ∈ c0.voters)
+    (evs : List Ev) (hev : ∀ ev ∈ evs, EvMeOK c0.me ev)
+    (hnum : c0.strict = true ∨ ∀ ev ∈ evs, EvNumOK c0 ev) {o : Ord} (ho : o.Valid)
+    (he : 3 * (runAll c0 evs).2.pve.length ≤ (runAll c0 evs).1.n) {G : Nat}
+    (hgh : IsGhost (runAll c0 evs).1 (runAll c0 evs).2 G)
+    (hns : (∃ kv ∈ (runAll c0 evs).2.pv, kv.2.blk = G) ∨
+      (∀ kv ∈ (runAll c0 evs).2.pv, pvTotal (runAll c0 evs).1 (runAll c0 evs).2 kv.2.blk ≤
+        thr (runAll c0 evs).1.n)) :
+    determinePreCommit (runAll c0 evs).1 o (runAll c0 evs).2 =
+      capVote (runAll c0 evs).1 ((runAll c0 evs).1.voteOf G) := by
+  have hw' : (runAll c0 evs).1.t.WF := by rw [(runAll_static c0 evs).1]; exact hw
+  exact (C21_precommit_target_partial hw' (C21_history_good c0 evs hnum).1 ho
+    (C21_history_accounted c0 hme evs hev).1 he hgh hns).2
+
+def scCfg : Cfg := ⟨[0, 1, 2, 3], 0, 0, ⟨[0, 0, 1]⟩, 0, .none, 1, 0, false⟩
+def scInit : Init := ⟨1, [5, 0, 1, 4], 0, 0, 1⟩
+def scMsg (key mset : Nat) : Msg := ⟨0, key, 2, 2, true, 1, mset⟩
+
+/-- a set change (set 0 → 1: authorities 2 and 3 leave, 4 and 5 join, the order changes, the head moves to
+block 1): the old prevotes are gone; a removed authority's well-signed prevote for the new set is refused
+(`ErrVoterNotFound`) and counted nowhere, a surviving authority's vote for the OLD set id is refused
+(`ErrSetIDMismatch`), the new authority's vote is accepted -/
+theorem C21_set_change_example :
+    (runAll scCfg [.msg (scMsg 1 0), .msg (scMsg 2 0), .init scInit]).1.voters = [5, 0, 1, 4] ∧
+    (runAll scCfg [.msg (scMsg 1 0), .msg (scMsg 2 0), .init scInit]).1.set = 1 ∧
+    (runAll scCfg [.msg (scMsg 1 0), .msg (scMsg 2 0), .init scInit]).1.round = 1 ∧
+    (runAll scCfg [.msg (scMsg 1 0), .msg (scMsg 2 0)]).2.pv = [(1, ⟨2, 2⟩), (2, ⟨2, 2⟩)] ∧
+    (runAll scCfg [.msg (scMsg 1 0), .msg (scMsg 2 0), .init scInit]).2.pv = [] ∧
+    (validateVoteMessage (runAll scCfg [.init scInit]).1 (runAll scCfg [.init scInit]).2 (scMsg 2 1)).1
+      = some .voter ∧
+    (validateVoteMessage (runAll scCfg [.init scInit]).1 (runAll scCfg [.init scInit]).2 (scMsg 1 0)).1
+      = some .set ∧
+    (runAll scCfg [.init scInit, .msg (scMsg 2 1), .msg (scMsg 1 0), .msg (scMsg 4 1)]).2.pv
+      = [(4, ⟨2, 2⟩)] := by
+  decide
 
 end Gossamer.C21
